@@ -96,15 +96,6 @@ theorem T_C15_fixpoint_iter (g : Grid) (fixed : List Nat) (p : List V3) (k : Nat
 
 /-! ### a regular lattice with regular boundary is a fixed point -/
 
-/-- `coord` assigns lattice coordinates to the junctions such that the neighbours of every free inner
-    junction are centrally symmetric about it (their coordinates sum to `count · coord j`).
-    Decidable for a concrete grid; true for the structured maps (examples below; the harness has
-    the model decide it for every regular case it generates). -/
-def LatticeLike (g : Grid) (fixed : List Nat) (coord : Nat → V3) : Prop :=
-  ∀ j ∈ inner g, j ∉ fixed →
-    junctionNbrs g j ≠ [] ∧
-      vsum ((junctionNbrs g j).map coord) = V3.smul ((junctionNbrs g j).length : Rat) (coord j)
-
 /-
 Full statement (not proved for all sizes): for all nx ny ≥ 1, the structured quad map of nx × ny
 cells (and the nx × ny × nz hexahedral assembly) with the lattice coordinates of its points is
@@ -132,31 +123,6 @@ theorem T_C15_lattice_partial (g : Grid) (fixed : List Nat) (coord : Nat → V3)
       intro h0; exact hne (List.length_eq_zero_iff.mp h0)
     exact_mod_cast this
   apply V3.ext' <;> simp <;> field_simp
-
-/-- lattice coordinates of the points of the structured map with `nx` cells per row -/
-def quadCoord (nx : Nat) (q : Nat) : V3 := ⟨(q % (nx + 1) : Nat), (q / (nx + 1) : Nat), 0⟩
-
-/-- `GridBase` addressing of the structured `nx × ny` quad map -/
-def structQuads (nx ny : Nat) : Grid :=
-  ⟨quadKind,
-   (List.range ny).flatMap (fun j => (List.range nx).map (fun i =>
-     [j * (nx + 1) + i, j * (nx + 1) + i + 1, (j + 1) * (nx + 1) + i + 1, (j + 1) * (nx + 1) + i])),
-   (nx + 1) * (ny + 1)⟩
-
-def latticeLikeB (g : Grid) (fixed : List Nat) (coord : Nat → V3) : Bool :=
-  (inner g).all (fun j => fixed.contains j ||
-    (!(junctionNbrs g j).isEmpty &&
-      vsum ((junctionNbrs g j).map coord) == V3.smul ((junctionNbrs g j).length : Rat) (coord j)))
-
-theorem latticeLike_of_B (g : Grid) (fixed : List Nat) (coord : Nat → V3) (h : latticeLikeB g fixed coord = true) :
-    LatticeLike g fixed coord := by
-  intro j hj hf
-  unfold latticeLikeB at h
-  rw [List.all_eq_true] at h
-  have := h j hj
-  simp only [Bool.or_eq_true, List.contains_iff_mem, hf, false_or, Bool.and_eq_true, Bool.not_eq_true',
-    List.isEmpty_eq_false_iff, beq_iff_eq] at this
-  exact this
 
 /-- non-vacuity: the 3×3 and 4×2 structured maps are lattice-like (inner junctions: the lattice-interior points) -/
 example : LatticeLike (structQuads 3 3) [] (quadCoord 3) ∧ inner (structQuads 3 3) = [5, 6, 9, 10] :=
